@@ -21,3 +21,17 @@ Definition hist_mismatches := mismatches_with check_hist.
 (* diagnosis helper: index of the first rejected event *)
 Definition first_reject (c : hist) : option nat :=
   let '(rs, reps, byz, es) := c in snd (run rs reps byz gen (init gen) es 0).
+
+From HS Require Import Protocol.Fast Protocol.FastExec.
+
+Definition fhist := (list rid * list rid * list fevent)%type.
+
+Definition check_fhist (c : fhist) : bool :=
+  let '(reps, byz, es) := c in
+  config_ok reps byz gen &&
+  match snd (frun reps byz gen (Fast.init gen) es 0) with None => true | Some _ => false end.
+
+Definition fhist_mismatches := mismatches_with check_fhist.
+
+Definition ffirst_reject (c : fhist) : option nat :=
+  let '(reps, byz, es) := c in snd (frun reps byz gen (Fast.init gen) es 0).
